@@ -42,6 +42,10 @@ const R_AHEAD: Call = Call::Reg { ahead_ms: 1_000, counter: 0, node: PEER };
 const R_FAR: Call = Call::Reg { ahead_ms: 4_000_000, counter: 5, node: PEER };
 const R_BEYOND: Call = Call::Reg { ahead_ms: 5_000_000, counter: 0, node: PEER };
 const R_OWN: Call = Call::Reg { ahead_ms: 2_000, counter: 0, node: OWN };
+// counters in the clock actor's back-pressure region (>= 65525): the actor sleeps 1 ms after
+// serving; far enough from 65535 that the few calls of a program cannot overflow it
+const R_SAME_TICK_HIGH: Call = Call::Reg { ahead_ms: 0, counter: 65_527, node: PEER };
+const R_AHEAD_HIGH: Call = Call::Reg { ahead_ms: 5_000, counter: 65_527, node: PEER };
 
 fn programs(thorough: bool) -> Vec<Vec<Call>> {
     let mut v = vec![
@@ -51,6 +55,8 @@ fn programs(thorough: bool) -> Vec<Vec<Call>> {
         vec![Call::Get, R_FAR, Call::Get],
         vec![R_BEYOND, Call::Get],
         vec![R_OWN, Call::Get],
+        vec![R_AHEAD_HIGH, Call::Get],
+        vec![R_SAME_TICK_HIGH, Call::Get, Call::Get],
     ];
     if thorough {
         v.push(vec![Call::Get, Call::Get, Call::Get]);
